@@ -55,6 +55,12 @@ def _r(src, args, ret):
 
 
 REGRESSION = [
+    # an index variable that once held a literal (assignment / finished loop) and was reassigned since
+    _r("def f(l: Qlist[Qint[2], 4], a: Qint[2]) -> Qint[2]:\n    i = 0\n    i = a\n    return l[i]\n", [["l", ["Qint2"] * 4], ["a", "Qint2"]], "Qint2"),
+    _r("def f(a: Qint[2], c: bool) -> Qint[4]:\n    i = 1\n    if c:\n        i = a\n    return [3, 5, 7, 9][i]\n", [["a", "Qint2"], ["c", "bool"]], "Qint4"),
+    _r("def f(l: Qlist[Qint[2], 4], a: Qint[2]) -> Qint[2]:\n    i = 1\n    i += a\n    return l[i]\n", [["l", ["Qint2"] * 4], ["a", "Qint2"]], "Qint2"),
+    _r("def f(t: Tuple[bool, bool, bool, bool], a: Qint[2]) -> bool:\n    s = False\n    for i in range(2):\n        s = s ^ t[i]\n    i = a\n    return s ^ t[i]\n", [["t", ["bool"] * 4], ["a", "Qint2"]], "bool"),
+    _r("def f(l: Qlist[Qint[2], 2], a: bool) -> Qint[2]:\n    c = 1\n    return l[c] if a else l[0]\n", [["l", ["Qint2"] * 2], ["a", "bool"]], "Qint2"),
     # float literals that are powers of two (the literal's own type must hold the integer part)
     _r("def f(a: Qfixed[3, 3]) -> bool:\n    return a == 4.0\n", [["a", "Qfixed3_3"]], "bool"),
     _r("def f(a: Qfixed[2, 2]) -> Qfixed[2, 2]:\n    return a + 2.0 if a < 2.0 else a\n", [["a", "Qfixed2_2"]], "Qfixed2_2"),
